@@ -50,6 +50,8 @@ func runC07(c *Ctx, r *Report) {
 	c07ExpansionIdempotent(c, r)
 	c07EveryMessageWritten(c, r)
 	encodeDefCovers(c, r, "C07-R5-every-message-written")
+	c07EncodeReadOnly(c, r)
+	encodeNoRowCopies(c, r, "C07-R5-every-message-written")
 	roots, missing := c.rootFuncs(encodeRoots)
 	for _, m := range missing {
 		r.fail("C07-roots", m, "", "not found")
@@ -707,4 +709,137 @@ func encodeProfileRows(c *Ctx, r *Report, rule string) {
 		}
 		r.check(bad == "" && n > 0, rule, "getEncodeMesgDef/profile-rows", c.pos(fn.Pos()), "the definition lists the rows getFieldBySindex returned from the profile table", "getEncodeMesgDef appends "+bad+" instead of the profile's own row: a per-message copy with a different length makes the messages of one list disagree about the field's size, and the group's shared definition truncates or misreads the others")
 	}
+}
+
+// c07EncodeReadOnly (R6): Encode may store to its *File only what its documentation promises
+// (Header.DataSize, Header.CRC, CRC). Anything else it writes — a message field "corrected" before
+// encoding — makes the re-decoded File differ from the one that was decoded, and changes the
+// caller's File. Checked for every function on Encode's call tree that receives the *File.
+func c07EncodeReadOnly(c *Ctx, r *Report) {
+	enc := c.ssaFn(c.fn(c.fit, "Encode"))
+	if enc == nil {
+		r.fail("C07-R6-encode-readonly", "Encode", "", "not found")
+		return
+	}
+	allowed := map[string]bool{"Header.DataSize": true, "Header.CRC": true, "CRC": true}
+	isFilePtr := func(t types.Type) bool {
+		pt, ok := t.(*types.Pointer)
+		if !ok {
+			return false
+		}
+		n, ok := pt.Elem().(*types.Named)
+		return ok && n.Obj().Name() == "File" && n.Obj().Pkg() != nil && n.Obj().Pkg().Path() == modPath
+	}
+	// root of an address: follow FieldAddr / IndexAddr / loads back to a parameter
+	var rootParam func(v ssa.Value, depth int) (*ssa.Parameter, string)
+	rootParam = func(v ssa.Value, depth int) (*ssa.Parameter, string) {
+		if depth > 12 {
+			return nil, ""
+		}
+		switch n := v.(type) {
+		case *ssa.Parameter:
+			return n, ""
+		case *ssa.FieldAddr:
+			p, path := rootParam(n.X, depth+1)
+			st := n.X.Type().Underlying().(*types.Pointer).Elem().Underlying().(*types.Struct)
+			name := st.Field(n.Field).Name()
+			if path != "" {
+				name = path + "." + name
+			}
+			return p, name
+		case *ssa.IndexAddr:
+			p, path := rootParam(n.X, depth+1)
+			return p, path + "[]"
+		case *ssa.UnOp:
+			if n.Op == token.MUL {
+				return rootParam(n.X, depth+1)
+			}
+		case *ssa.Phi:
+			for _, e := range n.Edges {
+				if p, path := rootParam(e, depth+1); p != nil {
+					return p, path
+				}
+			}
+		case *ssa.Extract:
+			return rootParam(n.Tuple, depth+1)
+		case *ssa.Call:
+			// a container handed out by an accessor method of the File (file.Activity())
+			if f := n.Common().StaticCallee(); f != nil && f.Signature.Recv() != nil && len(n.Common().Args) > 0 {
+				if p, _ := rootParam(n.Common().Args[0], depth+1); p != nil {
+					return p, f.Name() + "()"
+				}
+			}
+		}
+		return nil, ""
+	}
+	n, nFn := 0, 0
+	for _, fn := range c.reach([]*ssa.Function{enc}).module() {
+		if fnPkgPath(fn) != modPath || !inLib(fn) {
+			continue
+		}
+		hasFile := false
+		for _, p := range fn.Params {
+			if isFilePtr(p.Type()) {
+				hasFile = true
+			}
+		}
+		if !hasFile {
+			continue
+		}
+		nFn++
+		for _, b := range fn.Blocks {
+			for _, ins := range b.Instrs {
+				st, ok := ins.(*ssa.Store)
+				if !ok {
+					continue
+				}
+				p, path := rootParam(st.Addr, 0)
+				if p == nil || !isFilePtr(p.Type()) {
+					continue
+				}
+				n++
+				r.check(allowed[path], "C07-R6-encode-readonly", fn.Name()+"/"+path, c.pos(st.Pos()), "documented post-state of Encode", fn.Name()+" stores to "+path+" of the File being encoded: Encode changes the File it was given (only Header.DataSize, Header.CRC and CRC are its documented outputs), so what is written differs from what was decoded")
+			}
+		}
+	}
+	r.set("encode_file_stores", n)
+	r.need("functions on Encode's call tree that receive the *File", nFn, 1)
+	r.need("stores to the File in Encode (documented outputs)", n, 3)
+}
+
+// encodeNoRowCopies: nothing Encode reaches makes a private copy of a profile row (a local of type
+// `field`): the sizes and types a definition declares are the profile table's, not a per-call
+// variant of them. Shared by C05, C06 and C07.
+func encodeNoRowCopies(c *Ctx, r *Report, rule string) {
+	enc := c.ssaFn(c.fn(c.fit, "Encode"))
+	fobj := c.fit.Types.Scope().Lookup("field")
+	if enc == nil || fobj == nil {
+		r.fail(rule, "encode/no-row-copies", "", "Encode or the profile row type not found")
+		return
+	}
+	bad := ""
+	nFn := 0
+	for _, fn := range c.reach([]*ssa.Function{enc}).module() {
+		if fnPkgPath(fn) != modPath || !inLib(fn) {
+			continue
+		}
+		nFn++
+		for _, b := range fn.Blocks {
+			for _, ins := range b.Instrs {
+				if al, ok := ins.(*ssa.Alloc); ok {
+					if pt, ok := al.Type().(*types.Pointer); ok && types.Identical(pt.Elem(), fobj.Type()) {
+						bad = fn.Name() + " at " + c.pos(al.Pos())
+					}
+				}
+				if st, ok := ins.(*ssa.Store); ok {
+					if fa, ok := st.Addr.(*ssa.FieldAddr); ok {
+						if pt, ok := fa.X.Type().(*types.Pointer); ok && types.Identical(pt.Elem(), fobj.Type()) {
+							bad = fn.Name() + " (store to a row member) at " + c.pos(st.Pos())
+						}
+					}
+				}
+			}
+		}
+	}
+	r.check(bad == "" && nFn > 5, rule, "encode/no-row-copies", c.pos(enc.Pos()), fmt.Sprintf("%d functions reachable from Encode: no copy of a profile row is made and no row member is stored to", nFn), "the encoder makes or modifies a private copy of a profile row in "+bad+": the size or type a definition declares can then differ from the profile's (and from what the value writer emits or the decoder expects)")
 }
